@@ -9,6 +9,7 @@ import S3V.Model.Prepare
 import S3V.Model.HttpBody
 import S3V.Gen.XmlSer
 import S3V.Spec.XmlOutput
+import S3V.Model.HttpLabel
 /-!
 Driver for the end-to-end components through `S3Service::call`:
 
@@ -298,6 +299,81 @@ def formModelBad (form : String) (bucketFrag : String) (fileLen : Nat) (fields :
       | none => none
       | some p => if p == f.2 || (p == "None" && f.2 == "[]") then none else some s!"{name}: form model predicts {p}, arrived {f.2}"
 
+/-! ### label members (C02, `S3V.HttpLabel`): `classify` on the request's raw path and `Host`, then the label statements
+of the operation reached, compared with the `bucket` / `key` the recording backend saw -/
+
+def hexNat? (cs : List Char) : Option Nat :=
+  if cs.isEmpty then none else
+  cs.foldl (fun acc c => match acc with
+    | none => none
+    | some n =>
+      if c.isDigit then some (16 * n + (c.toNat - 48))
+      else if 'a' ≤ c && c ≤ 'f' then some (16 * n + (c.toNat - 87))
+      else if 'A' ≤ c && c ≤ 'F' then some (16 * n + (c.toNat - 55))
+      else none) (some 0)
+
+/-- the inverse of `str::escape_debug` on the inside of a `{:?}`-rendered `String`; fuel = length -/
+def unescDebugGo : Nat → List Char → Option (List Char)
+  | 0, _ => none
+  | _ + 1, [] => some []
+  | fuel + 1, '\\' :: c :: rest =>
+    if c == 'u' then
+      match rest with
+      | '{' :: r =>
+        match hexNat? (r.takeWhile (· != '}')) with
+        | some n => (unescDebugGo fuel ((r.dropWhile (· != '}')).drop 1)).map (Char.ofNat n :: ·)
+        | none => none
+      | _ => none
+    else
+      let d : Option Char :=
+        if c == 'n' then some '\n' else if c == 'r' then some '\r' else if c == 't' then some '\t'
+        else if c == '0' then some (Char.ofNat 0) else if c == '\\' || c == '"' || c == '\'' then some c else none
+      match d with
+      | some d => (unescDebugGo fuel rest).map (d :: ·)
+      | none => none
+  | fuel + 1, c :: rest => (unescDebugGo fuel rest).map (c :: ·)
+
+/-- the bytes of a `String` from its `{:?}` rendering; `none` = not such a rendering -/
+def debugStrBytes (frag : String) : Option Bytes :=
+  match frag.toList with
+  | '"' :: rest =>
+    if rest.getLast? == some '"' then
+      (unescDebugGo (rest.length + 1) rest.dropLast).map fun cs => (String.ofList cs).toUTF8.toList
+    else none
+  | _ => none
+
+/-- the host configurations of the harness (`h_service.rs`: DOMAIN, DOMAIN2) -/
+def hostCfgOf (cfg : String) : Option S3V.Path.HostCfg :=
+  match cfgGet cfg "host" with
+  | "none" => some .none
+  | "single" => some (.single (strBytes "s3.example.com"))
+  | "singleport" => some (.single (strBytes "s3.example.com:8014"))
+  | "multi" => some (.multi [strBytes "objects.example.org", strBytes "s3.example.com"])
+  | _ => none
+
+open S3V.HttpLabel in
+/-- model vs code on the label members: `[]` = every label member the model predicts arrived with the predicted bytes -/
+def labelModelBad (cfg target headersField : String) (op : Op) (isForm : Bool) (fields : List (String × String)) :
+    List String :=
+  match hostCfgOf cfg, hexDecode target with
+  | some hc, some tgt =>
+    let uriPath := tgt.takeWhile (· != 63)
+    let host : Option Bytes := (((listHexDecode headersField).getD []).find? fun h => h.takeWhile (· != 58) == strBytes "host").map
+      fun h => (h.dropWhile (· != 58)).drop 1
+    match S3V.Path.classify hc host uriPath with
+    | .error c => [s!"label model: path classification answers {repr c}"]
+    | .ok p =>
+      match deserLabels op isForm (some p) with
+      | none => ["label model: the label statement panics"]
+      | some pairs => pairs.filterMap fun (m, v) =>
+        let name := bytesToString m
+        match fields.find? (fun f => f.1 == name) with
+        | none => some s!"{name}: no such field"
+        | some f =>
+          if debugStrBytes f.2 == some v then none
+          else some s!"{name}: label model predicts {hexEncode v}, arrived {f.2}"
+  | _, _ => []
+
 def judgeInput (id : String) (fs0 : List String) (outs : List String) : String :=
   let form : Option String := if fs0.length == 9 then fs0[8]? else none
   let fs := if fs0.length == 9 then fs0.take 8 else fs0
@@ -358,7 +434,7 @@ def judgeInput (id : String) (fs0 : List String) (outs : List String) : String :
           -- model: `S3V.PostForm.decodeForm` over the translated table of `deserialize_http_multipart`
           let bucketFrag := ((sent.find? fun s => s.loc == "label").map (·.frag)).getD "\"\""
           let fileLen := ((sent.find? fun s => s.loc == "file-length").map (·.frag.toNat!)).getD 0
-          let bad := formModelBad form bucketFrag fileLen fields
+          let bad := formModelBad form bucketFrag fileLen fields ++ labelModelBad _cfg _target _headers op true fields
           if op != formOp then badline id
           else if !bad.isEmpty then disagree id ("; ".intercalate bad) "fields"
           else agree id ("form:" ++ opn)
@@ -376,6 +452,7 @@ def judgeInput (id : String) (fs0 : List String) (outs : List String) : String :
               if f.2 == p || (p == "None" && f.2 == "[]") then none
               else some s!"{m}: table predicts {p}, arrived {f.2}"
             | some _, none => some s!"{m}: no such field")
+          let modelBad := modelBad ++ labelModelBad _cfg _target _headers op false fields
           if !modelBad.isEmpty then disagree id ("; ".intercalate modelBad) "fields"
           else match helperModelVerdict op _headers _target with
             | some (.error e) => disagree id s!"helper model refuses: {repr e}" "implementation accepts"
